@@ -31,6 +31,7 @@ type View struct {
 	FrLimbs bool // fr.Element as 4 uint64 cells
 	FpLimbs bool
 	Field   bool // field sorts available
+	Group   bool // group-level contracts (key@group) preferred
 	Bytes   bool
 }
 
